@@ -112,6 +112,21 @@ Definition init_col : cpc :=
 Definition init (p : params) : st :=
   mkS P_run (if standby p then S_run else S_wait) [] false false false false false init_col None PSnone.
 
+(** ** Sequences of calls on one plugin instance
+    A call keeps all its state in locals of [doFallback] (the channels, the
+    two copies of the query context); the only thing it shares with other
+    calls is pkg/pool's timer pool. [timer_private] (regenerated from the
+    source): the threshold timer is taken from the pool by the secondary
+    goroutine itself and given back by a defer of that same goroutine, and
+    [doFallback] touches the pool nowhere else -- so no goroutine can still
+    be waiting on a timer that is back in the pool. Then every call of a
+    sequence, whatever the earlier calls did and however they ended, is
+    described by the single-call model started in [init]. *)
+Definition timer_private : bool := fallback_timer_owned_by_secondary.
+
+Definition call_model (earlier : list params) (p : params) : option st :=
+  if timer_private then Some (init p) else None.
+
 (** ** Updates *)
 Definition set_ppc (s : st) v := mkS v (s_pc s) (chan s) (prim_done s) (prim_failed s) (timer_fired s) (sdl_fired s) (ctx_done s) (col s) (first_ans s) (p_sig s).
 Definition set_spc (s : st) v := mkS (p_pc s) v (chan s) (prim_done s) (prim_failed s) (timer_fired s) (sdl_fired s) (ctx_done s) (col s) (first_ans s) (p_sig s).
